@@ -423,11 +423,13 @@ func c10GenResults(t *rapid.T, n int) []c10Res {
 		if r.TS > math.MaxInt64-r.Latency-1 {
 			r.Latency = 0
 		}
-		switch rapid.IntRange(0, 3).Draw(t, fmt.Sprintf("ck%d", i)) {
+		switch rapid.IntRange(0, 4).Draw(t, fmt.Sprintf("ck%d", i)) {
 		case 0:
 			r.Code = 0
 		case 1:
 			r.Code = uint16(rapid.IntRange(100, 599).Draw(t, fmt.Sprintf("c%d", i)))
+		case 4: // any value the field can hold (status codes are not validated anywhere)
+			r.Code = rapid.OneOf(rapid.Uint16(), rapid.SampledFrom([]uint16{1, 2, 3, 20, 21, 39, 40, 99, 600, 999, 1000, 2000, 2500, 3999, 4000, 20000, 39999, 40000, 65535})).Draw(t, fmt.Sprintf("c%d", i))
 		default:
 			r.Code = rapid.SampledFrom([]uint16{200, 200, 200, 201, 204, 301, 399, 400, 404, 500, 503, 199}).Draw(t, fmt.Sprintf("c%d", i))
 		}
